@@ -16,3 +16,11 @@ claim("C20",
       "list is ordered by availability time (the 'idle longest' reading of FIFO) is checked on every generated table by the "
       "Python predicate, not proved.",
       "Coq proof (invariant by induction over trips) + exact differential correspondence", "5.20")
+claim("C15",
+      "Axiom-free iff-theorems for ALL timestamps, season lists, levels and window layouts: membership in a peak-load window "
+      "(first listed season containing the date, start <= t < end, wrapping), core standing time (no-drive weekday, holiday, "
+      "windows), and the per-step series (= predicate at each step time, ceil((stop-start)/interval) entries, loop terminates). "
+      "The 'before the end' reading of the core window is refuted at t = end of a non-wrapping window (known finding, pinned "
+      "by a test) and proved everywhere else. Model tied to /repo by exact correspondence incl. every minute of boundary days.",
+      "Trusted: Coq kernel + VM; harness; Python datetime as calendar glue (ordinal, weekday, ISO parsing). No axioms.",
+      "Coq proof over integer model + exact differential correspondence (exhaustive minutes on sampled layouts)", "5.15")
